@@ -167,6 +167,16 @@ impl<'a> LspServer<'a> {
             }
             Err(req) => req,
         };
+
+        // Every request must be answered exactly once. Methods that this server
+        // does not implement get the JSON-RPC "method not found" error.
+        trace!("Request for unimplemented method {}", _request.method);
+        let response = lsp_server::Response::new_err(
+            req_id,
+            lsp_server::ErrorCode::MethodNotFound as i32,
+            format!("Method {} is not implemented", _request.method),
+        );
+        self.sender.send(Message::Response(response)).unwrap();
         ""
     }
 
